@@ -147,6 +147,7 @@ def main():
     violations = []
     known_seen = {}
     inconclusive_reasons = Counter()
+    inconclusive_keys = []
     for r in results:
         status[r["status"]] += 1
         for k, v in (r.get("stats") or {}).items():
@@ -163,6 +164,8 @@ def main():
             samples.append(r["sample"])
         if r["status"] == "inconclusive":
             inconclusive_reasons[str(r.get("reason"))[:80]] += 1
+            if len(inconclusive_keys) < 12:
+                inconclusive_keys.append([r.get("case"), str(r.get("reason"))[:60]])
         for v in r.get("violations") or []:
             mech = v.get("mech")
             # several mechanisms may explain one witness ("a+b"): all of them must be listed
@@ -200,6 +203,7 @@ def main():
         "case_status": dict(status),
         "inconclusive_cases": n_incon,
         "inconclusive_reasons": dict(inconclusive_reasons.most_common(8)),
+        "inconclusive_case_keys": inconclusive_keys,
         "observed": {k: v for k, v in sorted(stats.items())},
         "hook_calls": dict(hookc),
         "known_findings_reobserved": {k: len(v) for k, v in known_seen.items()},
